@@ -145,7 +145,7 @@ def describe(tracer):
         out["error"] = type(e).__name__ + ": " + str(e)[:120]
         if type(tracer).__name__ == "BasicRayTracer":
             from vt.checks.c01 import bracket_end_observables
-            out["observables"] = bracket_end_observables(tracer)
+            out["observables"] = bracket_end_observables(tracer, out["error"])
     return out
 
 
@@ -364,12 +364,10 @@ def kf_horizontal(case, viol):
 
 
 def kf_basic_max_angle_nan(case, viol):
+    from vt.checks.c01 import nan_confined_to_bracket_end
     d = viol["detail"]
-    import math
-    confined = ("r_at_max_angle" in d and math.isnan(d["r_at_max_angle"]) and math.isfinite(d.get("r_just_below_max_angle", float("nan")))
-                and math.isfinite(d.get("r_at_half_max_angle", float("nan"))) and d["r_at_half_max_angle"] > 0)
     return (d.get("family") == "basic" and viol["clause"].startswith("tracer reports solutions or none") and "NaN" in str(d.get("error", ""))
-            and not (d.get("sat0") and d.get("sat1")) and confined)
+            and not (d.get("sat0") and d.get("sat1")) and nan_confined_to_bracket_end(d))
 
 
 def kf_basic_turning_depth_unresolved(case, viol):
